@@ -143,6 +143,9 @@ class Evaluator(ObjectiveEvaluate):
             return 1.5
         if kind == 'zero':
             return 0.0
+        if kind in ('near', 'nearneg'):
+            # slightly worse than the input for every change (within a 25% deviation)
+            return (8.0 if kind == 'near' else -8.0) + self._value('initmin', snap) / 8
         if kind == 'initmin':
             t = 0.0
             for d, d0 in zip(snap, self.input_snap):
@@ -212,6 +215,14 @@ def run_impl(case):
     except Exception as ex:  # observed behaviour, judged by holds_b
         raised = '%s: %s' % (type(ex).__name__, str(ex)[:120])
     end_snap = snapshot(graph)
+    # OptunaTuner keeps its study as a public attribute: the proposals themselves are observable
+    study = None
+    if raised is None and t['kind'] == 'optuna' and getattr(tuner, 'study', None) is not None:
+        try:
+            study = {'trials': [[(str(k), canon_val(v)) for k, v in tr.params.items()] for tr in tuner.study.trials],
+                     'bests': [[(str(k), canon_val(v)) for k, v in tr.params.items()] for tr in tuner.study.best_trials]}
+        except Exception:
+            study = None
 
     def structure(g):
         fresh = {}
@@ -251,7 +262,7 @@ def run_impl(case):
             obs['reported'] = [metric_of_attr(m) for m in rep]
         else:
             obs['reported'] = metric_of_attr(rep)
-    return {'input': structure(input_copy), 'events': events, 'end_snap': end_snap, 'obs': obs}
+    return {'input': structure(input_copy), 'events': events, 'end_snap': end_snap, 'obs': obs, 'study': study}
 
 
 def metric_of_attr(m):
@@ -331,6 +342,15 @@ def build_proposer(case, run):
     work = [e for e in evals[1:] if e[1]]
     other = [e for e in evals[1:] if not e[1]]
     multi_mode = t['kind'] in ('optuna', 'iopt') and init_res[0] == 'M' and len(init_res) > 2
+    study = run.get('study')
+    if study and study['trials']:
+        # the real proposals of optuna (not inferred from the evaluated graphs)
+        pr['trials'] = study['trials']
+        if multi_mode:
+            pr['bests'] = study['bests']
+        elif study['bests']:
+            pr['final'] = study['bests'][0]
+        return pr
     if multi_mode or run['obs']['raised'] is not None:
         pr['trials'] = [infer_graph(sspec, names, e[2]) for e in work]
         pr['bests'] = [infer_graph(sspec, names, e[2]) for e in other]
@@ -545,10 +565,8 @@ def gen_graph(r, sspec, n_nodes, init_mode, outside_rate=0.0):
 
 
 def gen_objective(r, multi):
-    single = ['sum', 'sum', 'neg', 'quad', 'quad', 'initmin', 'const', 'zero']
-    fail = r.choice([None, None, None, None, 'mod3', 'mod3', 'on-set', 'on-init'])
-    if r.random() < 0.25:
-        fail = fail  # keep
+    single = ['sum', 'sum', 'sum', 'neg', 'neg', 'quad', 'quad', 'quad', 'initmin', 'const', 'zero', 'near', 'nearneg']
+    fail = r.choice([None, None, None, None, None, None, 'mod3', 'mod3', 'on-set', 'on-init'])
     if multi:
         return {'multi': True, 'metrics': r.choice([['sum', 'quad'], ['sum', 'neg'], ['quad', 'initmin'], ['initmin', 'const'],
                                                     ['neg', 'quad'], ['sum', 'sum']]), 'fail': fail}
@@ -760,13 +778,14 @@ def run(ctx):
     ctx.rule = ('real tuners (Simultaneous, Sequential, Optuna, IOpt; n_jobs=1) on random OptGraphs <= 6 nodes '
                 '(tunable / untunable / partially initialised) x random search spaces '
                 '(uniformint, randint, uniform, loguniform, choice incl. None) x objectives on a 1/64 grid (sum, neg, quad, '
-                'minimum at the initial point, constant; failing on a third of the assignments / on every tuned assignment / '
+                'minimum at the initial point, slightly worse than the input elsewhere, constant; failing on a third of the assignments / on every tuned assignment / '
                 'on the input) x iterations 1..12 x deviation {0.05, 0, 25}; single- and multi-objective (Optuna / IOpt), plus a '
                 'fixed list of corner inputs for every tuner; distinct = distinct (space, graph, objective, tuner config); '
                 'non-trivial = something to tune and tune() returned')
     ctx.trusted_extra = [
         'hyperopt / optuna / iOpt are arbitrary proposers to the model: their proposals are inferred from the logged '
-        'evaluations (labels rebuilt from the search space; the per-node loss of the sequential tuner = minimum logged loss)',
+        'evaluations (labels rebuilt from the search space; the per-node loss of the sequential tuner = minimum logged loss); '
+        'for OptunaTuner the proposals are read from tuner.study (trials and best_trials) instead',
         'the clause "tuned parameters lie in their range" is proved only relative to the libraries proposing in range; '
         'the runs check it on the observed results',
         'identity adapter only (the input graph object is the working graph; evaluations of other objects are copies); '
